@@ -144,6 +144,7 @@ class C20(ParserSessionProp):
             'paren_words': rng.random() < 0.3,
             'blank_lines': rng.random() < 0.2,
             'token_style': rng.choice(['plain', 'annotated']),
+            'stack_scan': gen.stream(seed, 'C20:stack', index).random() < 0.3,
         }
         return spec
 
@@ -292,6 +293,38 @@ class C20(ParserSessionProp):
                                  signature={'format': f['fmt'], 'kind': 'count'}))
             return out
         bump(stats, 'round_trips_confirmed')
+
+        # ---- F11: the same file read under every stack budget between "fails at once" and "succeeds": a reading may
+        # raise at any point, but every tree it yields before that has to be the tree that was written
+        if f.get('stack_scan'):
+            from depsim import faults
+            ok_in_a_row = 0
+            for extra in range(6, 400):
+                hit, value = faults.run_with_stack_budget(lambda: read_all(data), extra)
+                items2, err2 = value if not hit else ([], RecursionError())
+                if err2 is not None:
+                    bump(stats, 'fault:F11_reader_hit_the_stack_limit')
+                    ok_in_a_row = 0
+                else:
+                    ok_in_a_row += 1
+                for k, item in enumerate(items2[:len(trees)]):
+                    diff = same_tree(trees[k][1], item.tree, lang, check_symbols)
+                    if diff:
+                        out.append(Violation(
+                            oracle='round_trip',
+                            message=(f'{f["fmt"]} record {k + 1} read under a stack budget of {extra} frames (the ordinary reading is '
+                                     f'correct): {diff}; record: {records[k][1][:160]}'),
+                            signature={'format': f['fmt'], 'kind': diff.split(':')[0], 'after': 'F11'}))
+                        return out
+                if err2 is None and len(items2) != len(trees):
+                    out.append(Violation(
+                        oracle='round_trip',
+                        message=(f'{f["fmt"]} reader under a stack budget of {extra} frames: {len(items2)} trees for {len(trees)} '
+                                 f'records and no error'), signature={'format': f['fmt'], 'kind': 'count', 'after': 'F11'}))
+                    return out
+                if ok_in_a_row >= 3:
+                    break
+            bump(stats, 'stack_scans')
 
         # ---- F8: writer crashed at every byte offset of the chosen records
         which = range(len(records)) if f['torn'] == 'every' else [len(records) - 1]
